@@ -108,7 +108,8 @@ func c24(r *simk.Run) *simk.Violation {
 		perm := c.Perm(nKeys)[:nk]
 		ks := state.Keys{}
 		for _, ki := range perm {
-			ks[allKeys[ki]] = state.Read
+			// every declared permission lets the transaction observe the key's prior value
+			ks[allKeys[ki]] = []state.Permissions{state.Read, state.Allocate, state.Write, state.Allocate | state.Write, state.All}[c.Intn(5)]
 		}
 		// the processor flattens the declared key map with WithoutPermissions
 		flat := ks.WithoutPermissions()
